@@ -9,6 +9,7 @@ import GoBk.Model.XKeyStore
 import GoBk.Model.Bip39
 import GoBk.Model.Ecies
 import GoBk.Model.Envelope
+import GoBk.Model.JsonString
 import Driver.FieldOps
 import Driver.MemOps
 import Driver.ImplOps
@@ -342,6 +343,18 @@ def runOp (op : String) (a : List String) : Option String :=
           | .valid => "1" | .invalid => "0" | .error => "e"
         "ok " ++ hx sg ++ " " ++ hx pk ++ " " ++ v ++ " " ++ v ++ " P=" ++ hx pl' ++ " P2=" ++ hx pl'
       | none => "err")
+  | "json.quote", [h] => do
+    -- encoding/json on a Go string: json.Marshal(string(b))
+    let b ← unhex h
+    pure ("ok " ++ hx (JsonString.jsonQuote b))
+  | "json.unquote", [h] => do
+    -- json.Unmarshal(lit, &s) for a literal that starts and ends with a double quote
+    let b ← unhex h
+    pure (match JsonString.jsonUnquote b with | some r => "ok " ++ hx r | none => "err")
+  | "json.roundtrip", [h] => do
+    -- the envelope's own round trip on one string field: Unmarshal(Marshal(s))
+    let b ← unhex h
+    pure (match JsonString.jsonUnquote (JsonString.jsonQuote b) with | some r => "ok " ++ hx r | none => "err")
   | "rng.key", [t] => do
     let t ← untape t
     pure (match Rng.generateKey t with
